@@ -214,6 +214,31 @@ Proof.
     destruct (memN x interested); [apply IH | eapply shrinks_trans; [apply shrinks_forget | apply IH]].
 Qed.
 
+(* entries_ok alone is preserved by every step within capacity (no hypothesis about announce times) *)
+Lemma notify_fold_entries c now d susp l : forall st tf,
+  entries_ok (ann st) -> (N.of_nat (size (ann st) + 2 * length l) <= c_hash_limit c)%N ->
+  entries_ok (ann (fst (fold_left (notify_one c now d susp) l (st, tf)))).
+Proof.
+  induction l as [|i l IH]; intros st tf Hok Hcap; cbn [fold_left fst length]; [exact Hok|].
+  assert (Hcap1 : (N.of_nat (size (ann st) + 2) <= c_hash_limit c)%N) by (cbn [length] in Hcap; lia).
+  pose proof (notify_one_acct c now d susp st tf i Hok Hcap1) as H1. cbn zeta in H1.
+  destruct (notify_one c now d susp (st, tf) i) as [st1 tf1]. cbn [fst] in H1.
+  destruct H1 as (Hok1 & Hsz1 & _). apply IH; [exact Hok1 | cbn [length] in Hcap; lia].
+Qed.
+
+Lemma step_entries_ok c st now ev : entries_ok (ann st) -> ev_cap c st ev -> entries_ok (ann (fst (step true c st now ev))).
+Proof.
+  intros Ho Hcap. destruct ev as [peer ids atime interested susp scan | ids | | interested ch scan].
+  2: (eapply entries_ok_incl; [apply (proj1 (shrinks_step c st now (EReceived ids) I)) | exact Ho]).
+  2: (eapply entries_ok_incl; [apply (proj1 (shrinks_step c st now ETick I)) | exact Ho]).
+  2: (eapply entries_ok_incl; [apply (proj1 (shrinks_step c st now (ETimer interested ch scan) I)) | exact Ho]).
+  cbn [step]. unfold process_notification. cbn [ev_cap] in Hcap.
+  destruct interested as [|i0 rest]; [exact Ho|]. remember (i0 :: rest) as interested eqn:EI. clear EI.
+  pose proof (notify_fold_entries c now (mkA atime peer) susp interested st [] Ho Hcap) as H.
+  destruct (fold_left (notify_one c now (mkA atime peer) susp) interested (st, [])) as [st1 tf]. cbn [fst] in *.
+  destruct (_ && _); [rewrite reschedule_ann; exact H | exact H].
+Qed.
+
 (* ---------- the invariant of the whole run ---------- *)
 
 Definition genv (c : cfg) (id : N) (Tend : Z) (st : state) : Prop :=
@@ -331,8 +356,8 @@ Lemma chase : forall post st tprev n,
   genv c id Tend st -> cap_ok c st post ->
   (forall now ev, In (now, ev) post -> ev_young c id Tend ev) ->
   held id st ->
-  (forall now i ch sc, In (now, ETimer i ch sc) post -> In id i) ->
-  (forall now l, In (now, EReceived l) post -> ~ In id l) ->
+  (forall now i ch sc, In (now, ETimer i ch sc) post -> (now <= Tend)%Z -> In id i) ->
+  (forall now l, In (now, EReceived l) post -> (now <= Tend)%Z -> ~ In id l) ->
   (exists now ev, In (now, ev) post /\ (Tend < now)%Z) ->
   exists p1 now_p i ch sc p2,
     post = p1 ++ (now_p, ETimer i ch sc) :: p2 /\ (T0 <= now_p <= Tend)%Z /\
@@ -344,8 +369,8 @@ Proof.
   cbn [cap_ok] in Hcap. destruct Hcap as [Hcap1 Hcap2].
   destruct (step_genv c id Tend st now ev Hg Hcap1 (Hy now ev (or_introl eq_refl))) as (Hg1 & Hk1 & _).
   assert (Hy' : forall n0 e, In (n0, e) post -> ev_young c id Tend e) by (intros n0 e H; eapply Hy; right; exact H).
-  assert (Hint' : forall n0 i ch sc, In (n0, ETimer i ch sc) post -> In id i) by (intros n0 i ch sc H; eapply Hint; right; exact H).
-  assert (Hrec' : forall n0 l, In (n0, EReceived l) post -> ~ In id l) by (intros n0 l H; eapply Hrec; right; exact H).
+  assert (Hint' : forall n0 i ch sc, In (n0, ETimer i ch sc) post -> (n0 <= Tend)%Z -> In id i) by (intros n0 i ch sc H; eapply Hint; right; exact H).
+  assert (Hrec' : forall n0 l, In (n0, EReceived l) post -> (n0 <= Tend)%Z -> ~ In id l) by (intros n0 l H; eapply Hrec; right; exact H).
   assert (Hcont : forall n', (now <= Tend)%Z ->
     n' = (if timer_chan st && negb (takes_pass st ev) then S n else 0%nat) ->
     resp_inv_k (fst (step true c st now ev)) now n' -> held id (fst (step true c st now ev)) ->
@@ -365,7 +390,7 @@ Proof.
     assert (Hnow : (now <= Tend)%Z) by (unfold Tend, Bmax in *; nia).
     destruct ev as [peer ids atime interested susp scan | ids | | i ch sc].
     4:{ (* the pass *)
-        assert (Hin : In id i) by (eapply Hint; left; reflexivity).
+        assert (Hin : In id i) by (exact (Hint now i ch sc (or_introl eq_refl) Hnow)).
         destruct (pass_keeps_held c id Tend st now i ch sc Hsl Hg Hnow Hc Hin Hh) as [Hh1 Hr].
         destruct (Z_le_gt_dec T0 now) as [Hge|Hlt].
         - exists [], now, i, ch, sc, post. cbn [app run fst]. split; [reflexivity|]. split; [lia | exact Hr].
@@ -376,7 +401,7 @@ Proof.
     all: assert (Hb2 : (now <= Bmax + lat + Z.of_nat (S n) * lat)%Z) by (rewrite Nat2Z.inj_succ; nia).
     + apply (Hcont (S n)); [exact Hnow | cbn [takes_pass]; rewrite Hc; reflexivity | | exact (Hk1 Hh)].
       left. unfold timer_chan in *. rewrite notify_keeps_timer by (now apply held_ann_ne with id). split; [exact Hc|]. split; [exact Hb2 | lia].
-    + apply (Hcont (S n)); [exact Hnow | cbn [takes_pass]; rewrite Hc; reflexivity | | apply received_keeps_held; [eapply Hrec; left; reflexivity | exact Hh]].
+    + apply (Hcont (S n)); [exact Hnow | cbn [takes_pass]; rewrite Hc; reflexivity | | apply received_keeps_held; [exact (Hrec now ids (or_introl eq_refl) Hnow) | exact Hh]].
       left. unfold timer_chan in *. rewrite received_keeps_timer. split; [exact Hc|]. split; [exact Hb2 | lia].
     + apply (Hcont (S n)); [exact Hnow | cbn [takes_pass]; rewrite Hc; reflexivity | | ].
       * left. unfold timer_chan in *. cbn [step].
@@ -390,7 +415,7 @@ Proof.
     destruct ev as [peer ids atime interested susp scan | ids | | interested ch scan].
     + apply (Hcont 0%nat); [exact Hnow | now rewrite En | | exact (Hk1 Hh)].
       right. unfold timer_chan, timer_due. rewrite notify_keeps_timer by (now apply held_ann_ne with id). eauto.
-    + apply (Hcont 0%nat); [exact Hnow | now rewrite En | | apply received_keeps_held; [eapply Hrec; left; reflexivity | exact Hh]].
+    + apply (Hcont 0%nat); [exact Hnow | now rewrite En | | apply received_keeps_held; [exact (Hrec now ids (or_introl eq_refl) Hnow) | exact Hh]].
       right. unfold timer_chan, timer_due. rewrite received_keeps_timer. eauto.
     + apply (Hcont 0%nat); [exact Hnow | now rewrite En | | ].
       * unfold resp_inv_k, timer_chan, timer_due. cbn [step]. rewrite Hd.
@@ -505,6 +530,14 @@ Qed.
 Lemma run_single c st now ev : fst (run true c st [(now, ev)]) = fst (step true c st now ev).
 Proof. cbn [run]. destruct (step true c st now ev). reflexivity. Qed.
 
+Lemma run_entries_ok c tr : forall s, entries_ok (ann s) -> cap_ok c s tr -> entries_ok (ann (fst (run true c s tr))).
+Proof.
+  induction tr as [|[now ev] tr IH]; intros s Hs Hc; cbn [run]; [exact Hs|].
+  cbn [cap_ok] in Hc. destruct Hc as [Hc1 Hc2].
+  pose proof (step_entries_ok c s now ev Hs Hc1) as H1. destruct (step true c s now ev) as [s1 o]. cbn [fst] in *.
+  specialize (IH s1 H1 Hc2). destruct (run true c s1 tr). exact IH.
+Qed.
+
 (* ====================== the end-to-end theorem ====================== *)
 Theorem fetcher_liveness c lat k t0 pre t peer ids atime interested susp scan post id :
   cfg_wf c -> (c_slack c <= c_arrive c)%Z -> (0 <= lat)%Z ->
@@ -514,17 +547,19 @@ Theorem fetcher_liveness c lat k t0 pre t peer ids atime interested susp scan po
   fair_run_k c lat k (init t0) t0 0 tr ->
   In id interested ->
   cap_ok c (init t0) tr ->
-  (forall now p i a int su sc, In (now, ENotify p i a int su sc) tr -> In id int -> (Tend - a <= c_forget c)%Z) ->
-  (forall now i ch sc, In (now, ETimer i ch sc) post -> In id i) ->
-  (forall now l, In (now, EReceived l) post -> ~ In id l) ->
+  young_inv c id Tend (fst (run true c (init t0) pre)) ->
+  (Tend - atime <= c_forget c)%Z ->
+  (forall now p i a int su sc, In (now, ENotify p i a int su sc) post -> In id int -> (Tend - a <= c_forget c)%Z) ->
+  (forall now i ch sc, In (now, ETimer i ch sc) post -> (now <= Tend)%Z -> In id i) ->
+  (forall now l, In (now, EReceived l) post -> (now <= Tend)%Z -> ~ In id l) ->
   (exists now ev, In (now, ev) post /\ (Tend < now)%Z) ->
   exists t' p l, In (t', (p, l)) (snd (run true c (init t0) tr)) /\ In id l /\ (t <= t' <= Tend)%Z.
 Proof.
-  intros Hwf Hsl Hlat tr Tend Hclk Hfair Hin Hcap Hyoung Hint Hrec Hlate.
+  intros Hwf Hsl Hlat tr Tend Hclk Hfair Hin Hcap Hyst Hynew Hyoung Hint Hrec Hlate.
   set (Nev := (t, ENotify peer ids atime interested susp scan)) in *.
   set (T0 := (t + (c_arrive c - c_slack c))%Z).
   assert (ETend : Tend = (T0 + c_arrive c + (Z.of_nat k + 2) * lat)%Z) by (unfold Tend, T0; lia).
-  assert (Hy : forall now ev, In (now, ev) tr -> ev_young c id Tend ev).
+  assert (Hy : forall now ev, In (now, ev) post -> ev_young c id Tend ev).
   { intros now ev Hev. destruct ev; try exact I. cbn. intros Hi. eapply Hyoung; eauto. }
   replace tr with ((pre ++ [Nev]) ++ post) in * by (unfold tr; now rewrite <- app_assoc).
   destruct (clock_ok_app _ _ _ Hclk) as [Hclk1 Hclk2].
@@ -535,20 +570,20 @@ Proof.
   destruct (fair_run_k_app c lat k (pre ++ [Nev]) (init t0) t0 0 post (Nat.le_0_l _) Hfair) as (n1 & Hn1 & Hfair2).
   rewrite Elast in Hfair2.
   destruct (cap_ok_app c (pre ++ [Nev]) (init t0) post Hcap) as [Hcap1 Hcap2].
-  pose proof (run_genv c id Tend (pre ++ [Nev]) (init t0) (genv_init c id Tend t0) Hcap1
-                (fun n e H => Hy n e (proj2 (in_app_iff _ _ _) (or_introl H)))) as Hg1.
+  destruct (cap_ok_app c pre (init t0) [Nev] Hcap1) as [Hcap0 HcapN].
+  set (st0 := fst (run true c (init t0) pre)) in *.
+  (* the table before the announcement: entries well-formed (from the run), records of the item young (hypothesis) *)
+  assert (Hok0 : entries_ok (ann st0)).
+  { unfold st0. apply run_entries_ok; [intros e [] | exact Hcap0]. }
+  assert (Hg0 : genv c id Tend st0) by (split; assumption).
+  unfold Nev in HcapN. cbn [cap_ok] in HcapN. destruct HcapN as [HcapN _].
+  destruct (step_genv c id Tend st0 t (snd Nev) Hg0 HcapN (fun _ => Hynew)) as (Hg1' & _ & H3).
+  cbn [snd Nev] in H3, Hg1'. specialize (H3 Hin).
   set (st1 := fst (run true c (init t0) (pre ++ [Nev]))) in *.
-  assert (Hheld : held id st1).
-  { unfold st1. rewrite run_app_fst.
-    set (st0 := fst (run true c (init t0) pre)).
-    destruct (cap_ok_app c pre (init t0) [Nev] Hcap1) as [Hcap0 HcapN]. fold st0 in HcapN.
-    pose proof (run_genv c id Tend pre (init t0) (genv_init c id Tend t0) Hcap0
-                  (fun n e H => Hy n e (proj2 (in_app_iff _ _ _) (or_introl (proj2 (in_app_iff _ _ _) (or_introl H)))))) as Hg0.
-    fold st0 in Hg0. unfold Nev in HcapN. cbn [cap_ok] in HcapN. destruct HcapN as [HcapN _].
-    destruct (step_genv c id Tend st0 t (snd Nev) Hg0 HcapN) as (_ & _ & H3).
-    { apply (Hy t). apply in_app_iff. left. apply in_app_iff. right. left. reflexivity. }
-    cbn [snd Nev] in H3. specialize (H3 Hin).
-    unfold Nev. rewrite run_single. exact H3. }
+  assert (Est1 : st1 = fst (step true c st0 t (ENotify peer ids atime interested susp scan))).
+  { unfold st1. rewrite run_app_fst. unfold Nev. now rewrite run_single. }
+  assert (Hg1 : genv c id Tend st1) by (rewrite Est1; exact Hg1').
+  assert (Hheld : held id st1) by (rewrite Est1; exact H3).
   assert (Hinv : resp_inv_k c lat k T0 st1 t n1).
   { unfold resp_inv_k.
     destruct (fetcher_pass_pending c t0 t st1 Hwf Hreach (held_ann_ne _ _ Hheld)) as [Hc | (due & Hd & Hb)].
@@ -556,8 +591,7 @@ Proof.
     - destruct (timer_chan st1) eqn:Ec; [left; split; [reflexivity | split; [destruct Hwf; unfold T0; nia | exact Hn1]] | right].
       split; [reflexivity|]. exists due. split; [exact Hd | unfold T0; lia]. }
   rewrite ETend in *.
-  destruct (chase c lat k id T0 Hwf Hsl Hlat post st1 t n1 Hinv Hfair2 Hg1 Hcap2
-              (fun n e H => Hy n e (proj2 (in_app_iff _ _ _) (or_intror H))) Hheld Hint Hrec Hlate)
+  destruct (chase c lat k id T0 Hwf Hsl Hlat post st1 t n1 Hinv Hfair2 Hg1 Hcap2 Hy Hheld Hint Hrec Hlate)
     as (p1 & now_p & i & ch & sc & p2 & Epost & Hb & (p & ft & Hft & Hrec')).
   set (trA := (pre ++ [Nev]) ++ p1 ++ [(now_p, ETimer i ch sc)]).
   assert (EA : fst (run true c (init t0) trA) = fst (step true c (fst (run true c st1 p1)) now_p (ETimer i ch sc))).
@@ -587,15 +621,17 @@ Theorem fetcher_liveness_unsuspend c lat k t0 pre t peer ids atime interested su
   let Tend := (t + 2 * c_arrive c - c_slack c + (Z.of_nat k + 2) * lat)%Z in
   clock_ok t0 tr -> fair_run_k c lat k (init t0) t0 0 tr -> In id interested ->
   cap_ok c (init t0) tr ->
-  (forall now p i a int su sc, In (now, ENotify p i a int su sc) tr -> In id int -> (Tend - a <= c_forget c)%Z) ->
-  (forall now i ch sc, In (now, ETimer i ch sc) post -> In id i) ->
-  (forall now l, In (now, EReceived l) post -> ~ In id l) ->
+  young_inv c id Tend (fst (run true c (init t0) pre)) ->
+  (Tend - atime <= c_forget c)%Z ->
+  (forall now p i a int su sc, In (now, ENotify p i a int su sc) post -> In id int -> (Tend - a <= c_forget c)%Z) ->
+  (forall now i ch sc, In (now, ETimer i ch sc) post -> (now <= Tend)%Z -> In id i) ->
+  (forall now l, In (now, EReceived l) post -> (now <= Tend)%Z -> ~ In id l) ->
   (exists now ev, In (now, ev) post /\ (Tend < now)%Z) ->
   exists t' p l, In (t', (p, l)) (snd (run true c (init t0) tr)) /\ In id l /\
     (t <= t' <= Z.max t t_u + 2 * c_arrive c - c_slack c + (Z.of_nat k + 2) * lat)%Z.
 Proof.
-  intros Hwf Hsl Hlat tr Tend H1 H2 H3 H4 H5 H6 H7 H8.
-  destruct (fetcher_liveness c lat k t0 pre t peer ids atime interested susp scan post id Hwf Hsl Hlat H1 H2 H3 H4 H5 H6 H7 H8)
+  intros Hwf Hsl Hlat tr Tend H1 H2 H3 H4 H5 H5' H5'' H6 H7 H8.
+  destruct (fetcher_liveness c lat k t0 pre t peer ids atime interested susp scan post id Hwf Hsl Hlat H1 H2 H3 H4 H5 H5' H5'' H6 H7 H8)
     as (t' & p & l & Ha & Hb & Hc).
   exists t', p, l. split; [exact Ha|]. split; [exact Hb|]. unfold Tend in Hc. lia.
 Qed.
@@ -624,11 +660,13 @@ Proof.
             | intros _; split; [lia | first [left; vm_compute; reflexivity | right; vm_compute; lia]] ].
   - left. reflexivity.
   - cbn [cap_ok ex_live_pre ex_live_post app ev_cap]. repeat match goal with |- _ /\ _ => split end; try exact I; vm_compute; discriminate.
+  - intros e a He. vm_compute in He. contradiction.
+  - cbn; lia.
   - intros now p i a int su sc Hin Hi. cbn in Hin.
     repeat (destruct Hin as [E|Hin]; [inversion E; subst; try (cbn in Hi; intuition discriminate); cbn; lia|]). contradiction.
-  - intros now i ch sc Hin. cbn in Hin.
+  - intros now i ch sc Hin _. cbn in Hin.
     repeat (destruct Hin as [E|Hin]; [inversion E; subst; cbn; auto|]). contradiction.
-  - intros now l Hin. cbn in Hin. repeat (destruct Hin as [E|Hin]; [discriminate|]). contradiction.
+  - intros now l Hin _. cbn in Hin. repeat (destruct Hin as [E|Hin]; [discriminate|]). contradiction.
   - exists 720%Z, ETick. split; [cbn; auto | cbn; lia].
 Qed.
 
@@ -691,3 +729,8 @@ Proof.
   destruct (sim_fold_ok c fuel sc _ (fsim_ok_init c)) as [H1 H2]. split; [exact H1|].
   intros now p i a int su sc0 Hin. apply in_rev in Hin. eapply H2; eauto.
 Qed.
+
+(* the state hypothesis of fetcher_liveness holds trivially when the item is not in the table (never
+   announced, or received / forgotten since) *)
+Lemma young_inv_absent c id Tend st : ~ In id (map e_key (ann st)) -> young_inv c id Tend st.
+Proof. intros H e a He Hk _. exfalso. apply H. rewrite <- Hk. now apply in_map. Qed.
